@@ -168,3 +168,89 @@ def check_loop_scratch(res, db: DB, hi: HostInterp, entry: str) -> int:
           if dims and k not in scattered:
             scattered[k] = (dims, next(iter(dims.values())), e.ev.name or "kernel", cleared.get(k, False))
   return n
+
+
+# ------------------------------------------------------------------------------------------------ R-LIVE.5
+# Contact fields a slot writer may leave untouched, with the argument (confirmed by reading the readers)
+SLOT_FIELD_EXEMPT = {
+  # rigid-geom writers: both geom ids are >= 0, and every reader consults flex/elem/vert only under `geom[side] < 0`
+  ("rigid", "contact.flex"): "read only for sides with geom < 0",
+  ("rigid", "contact.elem"): "read only for sides with geom < 0",
+  ("rigid", "contact.vert"): "read only for sides with geom < 0",
+}
+
+
+def check_slot_records(res, db, lcs) -> int:
+  """R-LIVE.5: the flat contact buffer is re-used slot by slot on every step (nacon is reset, slots are handed out by an
+  atomic counter), so a slot still holds the record of whatever contact occupied it in an earlier step. Every kernel that
+  allocates a slot (`cid = atomic_add(nacon, ...)`) must therefore (re)define EVERY Contact field of that slot, over the
+  field's full trailing extent - otherwise the step reads a value left by an earlier step (not a function of the
+  integration state). 2-D fields (efc_address) need a loop over the whole second dimension."""
+  from ..report import Finding
+  from ..terms import T, subterms, show
+  from .world import array_key
+
+  cfields = [s for s in db.sm.schema.values() if s.cls == "Contact" and s.is_array and s.first == "naconmax"]
+  if len(cfields) < 15:
+    res.error(f"anchor vanished: only {len(cfields)} Contact array fields in the schema")
+  n = 0
+  seen = set()
+  for lc in lcs:
+    if lc.name in seen:
+      continue
+    ats = [a for a in lc.keval.accesses if a.kind == "atomic_add" and array_key(lc, a.root) == "Data.nacon" and a.ret_used]
+    if not ats:
+      continue
+    seen.add(lc.name)
+    uids = {a.uid for a in ats}
+    written = {}
+    for a in lc.keval.accesses:
+      if a.is_write and not a.is_atomic and a.idx and any(s.op == "at" and s.args[0] in uids for s in subterms(a.idx[0])):
+        f = lc.field(a.root)
+        if f is not None:
+          written.setdefault(f.path, []).append(a)
+    kind = "flex" if "contact.flex" in written else "rigid"
+    for spec in cfields:
+      n += 1
+      ws = written.get(spec.path, [])
+      cons = f"{lc.name}|{spec.path}"
+      if not ws:
+        ok = (kind, spec.path) in SLOT_FIELD_EXEMPT
+        res.ob(
+          ok,
+          cons,
+          Finding(
+            "R-LIVE.5",
+            f"{lc.name}|{spec.path}|slot-field-not-written",
+            f"{lc.name} allocates contact slots but never writes Data.{spec.path} for them: the slot keeps the value of whichever contact occupied it in an earlier step, which later stages of the same step read",
+            lc.ev.loc,
+          ),
+          sample={"writer": lc.name, "field": spec.path, "status": "exempt: " + SLOT_FIELD_EXEMPT.get((kind, spec.path), "") if ok else "missing"} if not ok or n % 20 == 0 else None,
+        )
+        continue
+      if spec.ndim >= 2:
+        # every column: some write whose second index is a loop variable running 0 .. shape[1] of the same array
+        full = False
+        for a in ws:
+          if len(a.idx) < 2:
+            full = True  # whole-row store
+            continue
+          j = a.idx[1]
+          if isinstance(j, T) and j.op == "lv":
+            info = lc.keval.loops.get(j.args[0], {})
+            lo, hi = info.get("lo"), info.get("hi")
+            lo_ok = isinstance(lo, T) and lo.op == "c" and lo.args[0] == 0
+            hi_ok = isinstance(hi, T) and hi.op == "shape" and hi.args[1] == 1 and array_key(lc, hi.args[0]) == array_key(lc, a.root)
+            if lo_ok and hi_ok:
+              full = True
+        res.ob(
+          full,
+          cons + "|extent",
+          Finding(
+            "R-LIVE.5",
+            f"{lc.name}|{spec.path}|slot-field-partially-written",
+            f"{lc.name} (re)defines Data.{spec.path}[slot, j] only for j in {{{', '.join(sorted({show(a.idx[1])[:30] for a in ws if len(a.idx) > 1}))}}}, not over the whole second dimension: the remaining entries keep values from the slot's previous occupant",
+            ws[0].loc,
+          ),
+        )
+  return n
